@@ -417,6 +417,11 @@ func (f *SplitFunction) Execute(ctx *FunctionContext, args []any) (any, error) {
 	return strings.Split(str, delimiter), nil
 }
 
+// maxPaddedLength bounds the result of lpad/rpad. Without a bound a huge target
+// length overflows the repeat count (strings.Repeat panics) or exhausts memory;
+// such a call now returns an error like any other out-of-domain argument.
+const maxPaddedLength = 1 << 20
+
 // LpadFunction 左填充字符串
 type LpadFunction struct {
 	*BaseFunction
@@ -457,6 +462,9 @@ func (f *LpadFunction) Execute(ctx *FunctionContext, args []any) (any, error) {
 
 	if pad == "" {
 		pad = " "
+	}
+	if length > maxPaddedLength {
+		return nil, fmt.Errorf("lpad: target length %d exceeds the maximum of %d", length, maxPaddedLength)
 	}
 	padLen := length - strLen
 	padStr := strings.Repeat(pad, int(padLen/int64(len(pad))+1))
@@ -503,6 +511,9 @@ func (f *RpadFunction) Execute(ctx *FunctionContext, args []any) (any, error) {
 
 	if pad == "" {
 		pad = " "
+	}
+	if length > maxPaddedLength {
+		return nil, fmt.Errorf("rpad: target length %d exceeds the maximum of %d", length, maxPaddedLength)
 	}
 	padLen := length - strLen
 	padStr := strings.Repeat(pad, int(padLen/int64(len(pad))+1))
